@@ -47,7 +47,7 @@ def b2s(b):
 class Check:
     id = PROP
     level = "exploration"
-    cases = {"quick": 1200, "thorough": 60000}
+    cases = {"quick": 5000, "thorough": 60000}
     rule = ("cases 0..6: EXHAUSTIVE enumeration of the OS's st_mode answers - 4096 permission values for each of the 7 file types (real chmod/mknod on tmpfs for six types, stat overlay for symlinks), one directory of 4096 entries per type; "
             "other cases: 'meta' = random world with overlaid lstat answers (size incl. > 2^32, uid/gid with and without a name in the simulated user table, nlink, blocks, inode, mtime) under permuted arrival order, DT_UNKNOWN and several zones; "
             "'content' = files of sizes around the 8 KiB / 32 KiB / 64 KiB buffer boundaries with empty / no-trailing-newline / only-newlines / binary / shebang contents under read-chunk schedules (1-byte reads, boundary-straddling, random, one huge). "
